@@ -182,10 +182,32 @@ class CrashFile(object):
         self.close()
 
 
+class RawCrash(io.FileIO):
+    """Raw file under CPython's own BufferedRandom/BufferedWriter: every write
+    that reaches it is a real write(2).  Used to confirm that the add_lease
+    witness state is reachable with the interpreter's buffering in place."""
+
+    def write(self, b):
+        _cur[0].point("write", self.name, self.tell(), bytes(b))
+        return io.FileIO.write(self, b)
+
+    def truncate(self, size=None):
+        _cur[0].point("truncate", self.name, self.tell() if size is None else size)
+        return io.FileIO.truncate(self, size)
+
+
+_buffered = [False]
+
+
 def _wrapped_open(path, mode="r", *a, **k):
     if "b" in mode and ("w" in mode or "+" in mode or "a" in mode or "x" in mode):
         if "a" in mode or "x" in mode:
             raise AssertionError("storage code opened %r with unexpected mode %r" % (path, mode))
+        if _buffered[0]:
+            if "w" in mode:
+                _cur[0].point("create", path)
+            raw = RawCrash(path, mode.replace("b", ""))
+            return io.BufferedRandom(raw) if "+" in mode else io.BufferedWriter(raw)
         return CrashFile(path, mode)
     if "w" in mode or "+" in mode or "a" in mode or "x" in mode:
         raise AssertionError("storage code opened %r in text write mode %r" % (path, mode))
@@ -367,7 +389,11 @@ class World(object):
         k = op["op"]
         ss = self.ss
         if k == "advance":
+            # stays far below BucketWriter's 30-minute upload timeout (which would
+            # abort the uploads in progress: an operation of its own, see "abort")
             self.clock.advance(op["dt"])
+            if any(bw.closed for bw in self.bws.values()):
+                raise AssertionError("workload advanced the clock past the upload timeout")
             return
         if k == "allocate":
             rs, cs = secrets(op["secret"])
@@ -434,6 +460,14 @@ class World(object):
     def drop(self):
         self.ss = None
         self.bws = {}
+
+
+def applicable(w, op):
+    """write/close/abort need the BucketWriter an earlier allocate returned
+    (a generated workload may name one the server did not grant)."""
+    if op["op"] in ("write", "close", "abort"):
+        return (op["si"], op["sh"]) in w.bws
+    return True
 
 
 def nlist(xs):
@@ -672,7 +706,7 @@ def random_workload(r):
                 del inprog[key]
             elif c < 0.9:
                 if r.random() < 0.4:
-                    ops.append({"op": "advance", "dt": r.choice([1, 100, 5000])})
+                    ops.append({"op": "advance", "dt": r.choice([1, 50, 100])})
                 ops.append({"op": "add_lease", "si": si, "secret": r.choice([0, 1, 2, 3, 4, 5])})
             else:
                 ops.append({"op": "advance", "dt": r.choice([1, 100])})
@@ -765,6 +799,8 @@ class Runner(object):
         w = World(base)
         hist = []
         for op in ops[:upto]:
+            if not applicable(w, op):
+                continue
             if op["op"] != "advance":
                 hist.append(w.sop_term(op))
             w.try_execute(op)
@@ -793,6 +829,10 @@ class Runner(object):
                 w.execute(op)
                 ref.append(None)
                 continue
+            if not applicable(w, op):
+                ref.append(None)
+                ctx.count("skipped-inapplicable-operation")
+                continue
             pre, problems = observe(w.ss)
             for p in problems:
                 ctx.oracle_fail("public-api-inconsistent", p, case={"workload": ops, "j": j})
@@ -810,7 +850,7 @@ class Runner(object):
             self.ops_terms.append(("check_ops %s %s %s" % (T.lst(hist), term, T.lst(log_terms)),
                                    {"workload": wname, "j": j, "op": op, "calls": [jev(w, e) for e in vis], "exception": exc}))
             ref.append({"pre": pre, "term": term, "hist": list(hist), "total": total, "exc": exc, "inprog": inprog,
-                        "nvis": len(vis)})
+                        "nvis": len(vis), "calls": list(w.inj.log)})
             hist.append(term)
             ctx.count("api-calls:" + opkind(op))
         shutil.rmtree(w.base, ignore_errors=True)
@@ -947,7 +987,7 @@ class Runner(object):
                     continue
                 v0, v1 = pre[key], post[key]
                 if (k in ("allocate", "add_lease") and v0[0] == "imm" and v1[0] == "imm" and v0[2]
-                        and v1[1] == v0[1] + v0[2][0] and case["after"] == "write"):
+                        and v1[1] == v0[1] + v0[2][0] and crashed and between_add_lease_writes(R.get("calls") or [], case["n"])):
                     window_hit = True
                     ctx.oracle_fail(KNOWN_KIND,
                                     "crash between the lease-record write and the lease-count write of ShareFile.add_lease: on restart share "
@@ -1001,8 +1041,18 @@ class Runner(object):
                                 case=case, expected={"data": bytes(want).hex(), "leases": 1}, observed=show(v))
         # a share that was complete and served before stays (covered by (1)/(2)); a
         # closed share whose close completed must be present
-        if k == "close" and not crashed and post[(si, op["sh"])] == ABSENT:
+        if k == "close" and not crashed and R.get("exc") is None and post[(si, op["sh"])] == ABSENT:
             ctx.oracle_fail("closed-share-missing", "close() returned but share %d/%d is absent after a restart" % (si, op["sh"]), case=case)
+
+
+def between_add_lease_writes(calls, n):
+    """Is crash point n (n calls completed) exactly between the 72-byte lease
+    record append and the 4-byte lease-count write at 0x08 of the same file?"""
+    if not (0 < n < len(calls)):
+        return False
+    a, b = calls[n - 1], calls[n]
+    return (a[0] == "write" and b[0] == "write" and a[1] == b[1] and len(a[3]) == 72
+            and b[2] == 8 and len(b[3]) == 4 and "incoming" not in a[1].split(os.sep))
 
 
 def jev(w, ev):
@@ -1054,6 +1104,30 @@ def witness(runner):
     if not crashed:
         ctx.mismatch("witness-replay", "the witness add_lease issued fewer than two low-level calls", case=info,
                      correspondence="refutation-witness-replayed")
+    # the same crash point with CPython's buffered file objects over a counting
+    # raw file: one raw write(2) completed, then the process dies
+    w2, _ = runner.play(WITNESS, 3)
+    _buffered[0] = True
+    try:
+        w2.inj.arm(1)
+        try:
+            w2.try_execute(WITNESS[3])
+        except Crash:
+            pass
+        raw_calls = [jev(w2, e) for e in w2.inj.log]
+    finally:
+        _buffered[0] = False
+    import gc
+    w2.drop()
+    gc.collect()
+    ss2, _ = runner.restart(w2)
+    post2, _ = observe(ss2)
+    shutil.rmtree(w2.base, ignore_errors=True)
+    if post2 == post:
+        ctx.count("witness-reproduced-with-cpython-buffered-files")
+    else:
+        ctx.note("with CPython's buffered files the crash after the first raw write of add_lease leaves %r (raw calls %r)" % (
+            jview(post2[(0, 0)]), raw_calls))
     v = post[(0, 0)]
     if v[0] == "imm" and len(v[1]) == 5 + 72:
         ctx.count("witness-reproduced")
@@ -1096,18 +1170,21 @@ def _run(ctx, runner):
     witness(runner)
     for i, wl in enumerate(directed_workloads()):
         runner.run_workload("directed-%d" % i, wl, restart_crashes=(i == 0 or ctx.tier == "thorough"))
-    n = ctx.n(10, 150)
+    n = ctx.n(8, 150)
     base = 1000 if ctx.search else 0
     for i in range(n):
         r = ctx.rng("workload", base + i)
         wl = random_workload(r)
         runner.run_workload("random-%d" % (base + i), wl)
-        if ctx.elapsed() > (50 if ctx.tier == "quick" and not ctx.search else 700):
+        if ctx.search and any(f["source"] == "oracle" and f["kind"] != KNOWN_KIND for f in ctx.failures):
+            return
+        if ctx.elapsed() > (40 if ctx.tier == "quick" and not ctx.search else 700):
             ctx.note("workload budget cut at %d of %d by the time limit" % (i + 1, n))
             break
 
     # ---- model comparison: one batch, shared preamble of named constants ------
-    compare_with_model(ctx, runner)
+    if not ctx.search:
+        compare_with_model(ctx, runner)
 
 
 def compare_with_model(ctx, runner):
@@ -1199,6 +1276,7 @@ def replay(ctx, rec):
         w.inj.arm(None)
         w.try_execute(ops[j])
         total = w.inj.count
+        ref_calls = list(w.inj.log)
         shutil.rmtree(w.base, ignore_errors=True)
         w, hist = runner.play(ops, j)
         w.inj.arm(n)
@@ -1213,7 +1291,7 @@ def replay(ctx, rec):
         ss, rlog = runner.restart(w)
         post, _ = observe(ss)
         c2 = {"workload": ops, "j": j, "n": n, "completed_calls": k, "after": last, "op": ops[j]}
-        runner.oracle(ops[j], {"pre": pre, "term": term, "hist": hist, "total": total, "inprog": inprog}, post, rlog, w, c2, crashed)
+        runner.oracle(ops[j], {"pre": pre, "term": term, "hist": hist, "total": total, "inprog": inprog, "calls": ref_calls}, post, rlog, w, c2, crashed)
         shutil.rmtree(w.base, ignore_errors=True)
         return {"operation": ops[j], "calls_completed_before_the_crash": calls, "crashed": crashed,
                 "before": {"%d/%d" % kk: jview(v) for kk, v in pre.items() if v != ABSENT},
